@@ -12,6 +12,15 @@
  *          held datagram arrives now.  Output: transcript ` req= ureq= resp= uresp= uresp2= held late=` then ` | ` and the
  *          trace of the CLIENT's association store: after every q `q:<piv>,<nonce>,<aad>,<is_observe>` (or q:none) for the
  *          request's token, after every delivery to the client `d:<piv>,<is_observe>` / `d:none` for the datagram's token.
+ *   oscm   <C: 5> <cseq> <sseq> <newmid|-1> <nS> { <secret> <salt> <idctx> <sid> <rid[,rid]*> }*nS <req> [<resp> <piv 0|1>]*
+ *          one exchange with a SERVER THAT HOLDS nS SECURITY CONTEXTS (one coap_context_oscore_server() per context, in
+ *          this order; several Recipient IDs = several recipient_id lines of the configuration).  Output: the transcript
+ *          as for osc, then ` | sel=<i>.<j>` = position (context, recipient in its chain) of session->recipient_ctx
+ *          after the request was delivered (none: no context selected).
+ *   findctx { c <idctx|none> <rid[,rid]*> | a <rid> | d <rid> | f <kid> <kidctx|null> <r2|none> }*
+ *          a context store built through the API (c: coap_context_oscore_server, a/d: coap_new_/coap_delete_oscore_recipient)
+ *          and direct calls of oscore_find_context(); output ` c:<0|1>` ` a:<0|1>` ` d:<0|1>` ` f:<i>.<j>|none`, then the
+ *          store ` store=<idctx|none>:<rid>,<rid>;…`.
  *   optenc <piv> <kidctx|none> <kid|none> <b2 0|1>      optdec <hex>
  *   aad <alg> <kid> <piv>        nonce <civ> <kid> <piv>     derive <secret> <salt> <idctx> <sid> <rid>
  *   sha256 <m>   hmac <key> <m>   hkdf <salt> <ikm> <info> <len>   ccm <key> <nonce> <aad> <pt>
@@ -514,6 +523,147 @@ static void do_crypto(char **w, int n) {
   for (int i = 0; i < k; i++) free(own[i]);
 }
 
+/* ---- several security contexts at one endpoint ------------------------------------------- */
+
+/* p[0..4] = secret salt idctx sid rid[,rid]* : one more context for endpoint i (no session) */
+static int ctx_add(int i, char **p, uint64_t seq) {
+  static char conf[8192];
+  static char rids[512];
+  coap_str_const_t cs;
+  coap_oscore_conf_t *oc;
+  char *r, *save = NULL;
+  conf[0] = 0;
+  conf_add(conf, sizeof(conf), "master_secret", p[0]);
+  if (strcmp(p[1], "-") && strcmp(p[1], "none")) conf_add(conf, sizeof(conf), "master_salt", p[1]);
+  if (strcmp(p[2], "none")) conf_add(conf, sizeof(conf), "id_context", p[2]);
+  conf_add(conf, sizeof(conf), "sender_id", p[3]);
+  snprintf(rids, sizeof(rids), "%s", p[4]);
+  for (r = strtok_r(rids, ",", &save); r; r = strtok_r(NULL, ",", &save)) conf_add(conf, sizeof(conf), "recipient_id", r);
+  strcat(conf, "rfc8613_b_1_2,bool,false\n");
+  cs.s = (const uint8_t *)conf; cs.length = strlen(conf);
+  oc = coap_new_oscore_conf(cs, NULL, NULL, seq);
+  if (!oc) return 0;
+  return coap_context_oscore_server(g_ctx[i], oc) ? 1 : 0;
+}
+
+static void session_up(int i) {
+  coap_session_t *s = coap_malloc_type(COAP_SESSION, sizeof(coap_session_t));
+  memset(s, 0, sizeof(*s));
+  s->context = g_ctx[i];
+  s->proto = COAP_PROTO_UDP;
+  s->type = i == 0 ? COAP_SESSION_TYPE_CLIENT : COAP_SESSION_TYPE_SERVER;
+  s->oscore_encryption = 1;
+  g_sess[i] = s;
+}
+
+static void print_sel(const coap_context_t *ctx, const oscore_recipient_ctx_t *r) {
+  int i = 0;
+  for (const oscore_ctx_t *pt = ctx->p_osc_ctx; pt; pt = pt->next, i++) {
+    int j = 0;
+    for (const oscore_recipient_ctx_t *rp = pt->recipient_chain; rp; rp = rp->next_recipient, j++)
+      if (rp == r) { printf("%d.%d", i, j); return; }
+  }
+  printf("none");
+}
+
+static void do_oscm(char **w, int n) {
+  long newmid = atol(w[8]);
+  int ns = atoi(w[9]), base = 10 + 5 * ns;
+  coap_pdu_t *req, *res;
+  uint8_t *dg; size_t dglen;
+  int v, delivered = 0;
+  if (ns < 1 || ns > 8 || base >= n || (n - base - 1) % 2) { printf("bad-op"); return; }
+  if (!endpoint_up(0, w + 1, strtoull(w[6], NULL, 10))) { printf("bad-context"); endpoint_down(0); return; }
+  for (int k = 0; k < ns; k++)
+    if (!ctx_add(1, w + 10 + 5 * k, strtoull(w[7], NULL, 10))) { printf("bad-context"); endpoint_down(0); endpoint_down(1); return; }
+  session_up(1);
+  req = parse_hex(w[base]);
+  if (!req) { printf("bad-input"); goto out; }
+  dg = protect(0, req, 0, newmid, &dglen);
+  coap_delete_pdu(req);
+  if (!dg) { printf("req=fail"); goto out; }
+  printf("req="); h_puthex(stdout, dg, dglen);
+  v = deliver(1, dg, dglen, &res);
+  delivered = 1;
+  free(dg);
+  printf(" ureq="); print_delivery(v, res);
+  if (v != 'a') goto out;
+  for (int k = base + 1; k + 1 < n; k += 2) {
+    coap_pdu_t *rsp = parse_hex(w[k]);
+    if (!rsp) { printf(" resp=bad-input"); break; }
+    dg = protect(1, rsp, atoi(w[k + 1]), newmid, &dglen);
+    coap_delete_pdu(rsp);
+    if (!dg) { printf(" resp=fail"); continue; }
+    printf(" resp="); h_puthex(stdout, dg, dglen);
+    v = deliver(0, dg, dglen, &res);
+    free(dg);
+    printf(" uresp="); print_delivery(v, res);
+  }
+out:
+  printf(" | sel=");
+  if (delivered) print_sel(g_ctx[1], g_sess[1]->recipient_ctx); else printf("none");
+  endpoint_down(0); endpoint_down(1);
+}
+
+static void do_findctx(char **w, int n) {
+  coap_context_t *ctx = g_ctx[1];
+  int k = 1;
+  printf("fc");
+  while (k < n) {
+    if (!strcmp(w[k], "c") && k + 2 < n) {
+      char secret[] = "0102030405060708090a0b0c0d0e0f10", none[] = "none", sid[] = "ff";
+      char *p[5] = { secret, none, w[k + 1], sid, w[k + 2] };
+      printf(" c:%d", ctx_add(1, p, 0));
+      k += 3;
+    } else if (!strcmp(w[k], "a") && k + 1 < n) {
+      size_t len; uint8_t *b = h_unhex(w[k + 1], &len);
+      coap_bin_const_t *rid;
+      int had = ctx->p_osc_ctx != NULL, r;
+      if (!b) { printf(" bad-step"); break; }
+      rid = coap_new_bin_const(b, len);
+      free(b);
+      r = coap_new_oscore_recipient(ctx, rid);
+      /* a refused id is released by the callee only when it is a duplicate */
+      if (!r && (!had || len > 7)) coap_delete_bin_const(rid);
+      printf(" a:%d", r);
+      k += 2;
+    } else if (!strcmp(w[k], "d") && k + 1 < n) {
+      size_t len; uint8_t *b = h_unhex(w[k + 1], &len);
+      coap_bin_const_t rid;
+      if (!b) { printf(" bad-step"); break; }
+      rid.s = b; rid.length = len;
+      printf(" d:%d", coap_delete_oscore_recipient(ctx, &rid));
+      free(b);
+      k += 2;
+    } else if (!strcmp(w[k], "f") && k + 3 < n) {
+      coap_bin_const_t kid, kc, r2;
+      uint8_t *o1 = NULL, *o2 = NULL, *o3 = NULL;
+      oscore_recipient_ctx_t *rcp = NULL;
+      int nullkc = !strcmp(w[k + 2], "null");
+      if (!bin_arg(w[k + 1], &kid, &o1) || !kid.s || (!nullkc && (!bin_arg(w[k + 2], &kc, &o2) || !kc.s)) ||
+          !bin_arg(w[k + 3], &r2, &o3) || (r2.s && r2.length != 8)) {
+        printf(" bad-step"); free(o1); free(o2); free(o3); break;
+      }
+      oscore_find_context(ctx, kid, nullkc ? NULL : &kc, r2.s ? o3 : NULL, &rcp);
+      printf(" f:"); print_sel(ctx, rcp);
+      free(o1); free(o2); free(o3);
+      k += 4;
+    } else { printf(" bad-step"); break; }
+  }
+  printf(" store=");
+  if (!ctx->p_osc_ctx) printf("-");
+  for (const oscore_ctx_t *pt = ctx->p_osc_ctx; pt; pt = pt->next) {
+    if (pt->id_context) h_puthex(stdout, pt->id_context->s, pt->id_context->length); else printf("none");
+    printf(":");
+    for (const oscore_recipient_ctx_t *rp = pt->recipient_chain; rp; rp = rp->next_recipient) {
+      h_puthex(stdout, rp->recipient_id->s, rp->recipient_id->length);
+      if (rp->next_recipient) printf(",");
+    }
+    if (pt->next) printf(";");
+  }
+  oscore_free_contexts(ctx);
+}
+
 static void step(char *line) {
   static char *w[160];
   int n = h_words(line, w, 160);
@@ -521,6 +671,8 @@ static void step(char *line) {
   if (!strcmp(w[0], "osc") && n >= 15 && (n - 15) % 2 == 0) { do_osc(w, n); return; }
   if (!strcmp(w[0], "tamper") && n == 22) { do_tamper(w); return; }
   if (!strcmp(w[0], "oseq") && n >= 14) { do_oseq(w, n); return; }
+  if (!strcmp(w[0], "oscm") && n >= 16) { do_oscm(w, n); return; }
+  if (!strcmp(w[0], "findctx")) { do_findctx(w, n); return; }
   if (!strcmp(w[0], "optenc") && n == 5) { do_optenc(w); return; }
   if (!strcmp(w[0], "optdec") && n == 2) { do_optdec(w); return; }
   if (!strcmp(w[0], "aad") && n == 4) { do_aad(w); return; }
